@@ -8,7 +8,10 @@ generated definitions, so a change of the C text changes the definitions the the
 
 Supported C subset: parameters and locals of type int / long long / int64_t / size_t / bool / CMR_ELEMENT, if / else,
 return, declarations with initialiser, assignment and compound assignment statements, + - * / % unary - ! comparisons
-&& || ?:, integer literals, casts, parentheses; `assert` disappears with -DNDEBUG.
+&& || ?:, integer literals, casts, parentheses, sizeof(type); `assert` disappears with -DNDEBUG.
+  | & ^ >> << and |= &= ^= >>= <<= on size_t / unsigned long operands only (a shift count outside 0..63 is undefined).
+  ++x; --x; x++; x--; as statements (the value is not used).
+  for (init; cond; inc) body  is  init; while (cond) { body; inc }  with the variables of init in scope only there.
   while (cond) { body }  becomes a `Fixpoint c_<fn>_loop<k> (fuel : nat) (<every variable in scope> : Z)` returning the
     tuple of those variables when the condition fails and None when the fuel runs out; the function then takes `fuel`
     as an extra first argument.  Variables declared in the body live for one iteration.  No return / break / continue /
@@ -30,11 +33,19 @@ FUNCS = [("linear_algebra_internal.h", "moduloNonnegative"), ("linear_algebra_in
          ("cmr/element.h", "CMRelementIsValid"), ("cmr/element.h", "CMRrowToElement"), ("cmr/element.h", "CMRcolumnToElement"),
          ("cmr/element.h", "CMRelementIsRow"), ("cmr/element.h", "CMRelementToRowIndex"), ("cmr/element.h", "CMRelementIsColumn"),
          ("cmr/element.h", "CMRelementToColumnIndex"), ("cmr/element.h", "CMRelementTranspose"),
-         ("linear_algebra.c", "gcdExt")]
+         ("linear_algebra.c", "gcdExt"), ("hashtable.h", "nextPower2")]
 
 TYPES = {"int": "I32", "long long": "I64", "long": "I64", "unsigned long": "U64", "size_t": "U64", "bool": "CB", "_Bool": "CB",
          "unsigned long long": "U64", "int64_t": "I64"}
 OUT_POINTERS = ("int64_t *", "long *", "long long *")
+SIZEOF = {"I32": 4, "I64": 8, "U64": 8, "CB": 1}
+BITWISE = {"|": "c_or", "&": "c_and", "^": "c_xor", ">>": "c_shr", "<<": "c_shl"}
+
+
+def unsigned_only(op, t):
+    if t != "U64":
+        raise Unsupported("bitwise operator %s on the signed type %s" % (op, t))
+    return t
 
 
 class Unsupported(Exception):
@@ -43,7 +54,7 @@ class Unsupported(Exception):
 
 def cty(node):
     t = node.get("type", {})
-    q = t.get("desugaredQualType") or t.get("qualType")
+    q = t.get("desugaredQualType") or t.get("qualType") or "?"
     q = q.replace("const ", "").strip()
     if q not in TYPES:
         raise Unsupported("type %r" % q)
@@ -92,6 +103,10 @@ def expr(n):
         return "(Some %s)" % ident(n["referencedDecl"]["name"])
     if k in ("ParenExpr", "ConstantExpr"):
         return expr(inner[0])
+    if k == "UnaryExprOrTypeTraitExpr":
+        if n.get("name") != "sizeof" or "argType" not in n or cty(n) != "U64":
+            raise Unsupported("%s of an expression" % n.get("name"))
+        return "(Some (%d))" % SIZEOF[cty({"type": n["argType"]})]
     if k == "ImplicitCastExpr" or k == "CStyleCastExpr":
         ck = n.get("castKind")
         if ck in ("LValueToRValue", "NoOp"):
@@ -117,6 +132,9 @@ def expr(n):
         cmp = {"<": "Z.ltb x y", ">": "Z.ltb y x", "<=": "Z.leb x y", ">=": "Z.leb y x", "==": "Z.eqb x y", "!=": "negb (Z.eqb x y)"}
         if op in ar:
             return "(x <-- %s ;; y <-- %s ;; %s %s x y)" % (a, b, ar[op], cty(n))
+        if op in BITWISE:
+            unsigned_only(op, cty(inner[0]))
+            return "(x <-- %s ;; y <-- %s ;; %s %s x y)" % (a, b, BITWISE[op], unsigned_only(op, cty(n)))
         if op in cmp:
             return "(x <-- %s ;; y <-- %s ;; c_bool (%s))" % (a, b, cmp[op])
         if op == "&&":
@@ -191,11 +209,12 @@ def loop(cond, body, cx):
 
 
 def stmts(lst, rest, cx):
-    """translate a statement list followed by the continuation `rest` (a Gallina term or None = falls off the end)"""
+    """translate a statement list followed by the continuation `rest` (a Gallina term, a function producing one, or
+    None = falls off the end)"""
     if not lst:
         if rest is None:
             raise Unsupported("control reaches the end of a non-void function")
-        return rest
+        return rest() if callable(rest) else rest
     s, tail = lst[0], lst[1:]
     k = s["kind"]
     inner = s.get("inner", [])
@@ -229,6 +248,18 @@ def stmts(lst, rest, cx):
             raise Unsupported("while statement with %d children" % len(inner))
         name, vs = loop(inner[0], inner[1], cx)
         return "(st <-- %s fuel %s ;;\n  let '(%s) := st in\n  %s)" % (name, " ".join(vs), ", ".join(vs), stmts(tail, rest, cx))
+    if k == "ForStmt":
+        if len(inner) != 5 or inner[1] or not inner[2]:
+            raise Unsupported("for statement with a condition variable or without a condition")
+        init, _, cond, inc, body = inner
+        loop_stmt = {"kind": "WhileStmt", "inner": [cond, {"kind": "CompoundStmt", "inner": [body] + ([inc] if inc else [])}]}
+        # the statements after the loop are translated in the scope before `init`
+        return stmts(([init] if init else []) + [loop_stmt], lambda: stmts(tail, rest, cx), cx)
+    if k == "UnaryOperator" and s["opcode"] in ("++", "--"):
+        v = target(inner[0], cx)
+        if cty(s) == "CB":
+            raise Unsupported(s["opcode"] + " on a bool")
+        return "(%s <-- %s %s %s 1 ;;\n  %s)" % (v, {"++": "c_add", "--": "c_sub"}[s["opcode"]], cty(s), v, stmts(tail, rest, cx))
     if k == "BinaryOperator" and s["opcode"] == "=":
         lhs = inner[0]
         o = out_target(lhs, cx)
@@ -242,6 +273,11 @@ def stmts(lst, rest, cx):
     if k == "CompoundAssignOperator":
         lhs = inner[0]
         op = {"+=": "c_add", "-=": "c_sub", "*=": "c_mul", "/=": "c_div", "%=": "c_rem"}.get(s["opcode"])
+        if s["opcode"][:-1] in BITWISE:
+            op = BITWISE[s["opcode"][:-1]]
+            unsigned_only(s["opcode"], cty(s))
+            unsigned_only(s["opcode"], cty({"type": s.get("computeResultType", {})}))
+            unsigned_only(s["opcode"], cty({"type": s.get("computeLHSType", {})}))
         if not op:
             raise Unsupported("compound " + s["opcode"])
         v = target(lhs, cx)
